@@ -75,7 +75,9 @@ CHECKS = {
         "`C10.parse_image` (Props/C10Image.lean): every tree the parser returns is in Spec.printable (non-empty lists, `in` has a list, paths hang off identifiers, lambda owners are paths, "
         "built-in calls have an admissible argument count) - which discharges the hypotheses of the round-trip theorems (C05 C13 C19) and of C12.sql_never_leaks for every accepted filter. "
         "The model is run against the real lexer+parser on all atom sequences up to length 3-4, mutated filters, random Unicode, and long "
-        "repetitive inputs under a per-case time budget; outcomes compared exactly (class, position, payload).",
+        "repetitive inputs under a per-case time budget; outcomes compared exactly (class, position, payload); 500-3000 random full-grammar trees rendered by the reference printer and their "
+        "mutations; keywords respelled with Unicode case twins; determinism: the corpus is first parsed in other letter cases, and after the whole run each corpus filter must give what it gives in a "
+        "process of its own.",
    note="Trusted: Lean kernel, standard axioms, harness. Partial: termination / memory of the real LR driver and of CPython's regex engine are runtime facts (20 s per-case budget, "
         "inputs up to 20-60 k characters); SLY's LALR construction and re are modelled. Three parser defects were repaired first (fix: 24b763b 1659103 dc4172f).",
    design="§6 C10", technique="Lean 4 proof (totality: fuel sufficiency + action type-safety by induction on fuel) + tie theorems + exhaustive/seeded differential correspondence"),
@@ -147,7 +149,9 @@ CHECKS = {
         "Both hypotheses hold for every accepted filter: callsOk by C10.parse_image (Props/C10Image.lean), durOk by C06.accepted_litOk (Props/C06Image.lean, ASCII texts).",
    note="Trusted: Lean kernel, standard axioms, Spec/TypesStrict.lean, harness. Partial: the ORM backends' outcome classes are observed on the real code only (Django's and "
         "SQLAlchemy's internals are not modelled); a refusal raised by the host ORM itself (Django FieldError) is counted as a refusal. Nine leaks were repaired first "
-        "(fix: b3ff485 c4949ac 0ae8f2a a3e3835 2c1d307 aff910a a628179 4813a75 3d0299d e93080a 235cac7).",
+        "(fix: b3ff485 c4949ac 0ae8f2a a3e3835 2c1d307 aff910a a628179 4813a75 3d0299d e93080a 235cac7 71c633b). Judged on every run besides the matrix: in-list completeness on the ORMs (every element incl. null "
+        "reaches the compiled IN list), literals without a value (2020-02-30) must be refused by the value-binding backends, field names that are attributes of the lookup objects (items, values, registry, "
+        "__tablename__ ...) are that column or an invalid field.",
    design="§6 C12", technique="Lean 4 proof (never-foreign by mutual induction + kernel-checked arity table) + tie theorems on handler matrix and exception tree + exhaustive differential correspondence + outcome classification on all seven backends"),
  "C01": dict(
    text="Lean 4 theorem `C01.where_selects` (Props/C01Full.lean): for EVERY filter b of the typed scalar grammar (integer / string / Boolean terms, any nesting: arithmetic, "
